@@ -113,10 +113,30 @@ def embed (t : Tw) (a : El) : El := a ++ List.replicate (t.deg - a.length) 0
 
 namespace Tw
 
-/-- multiplication in the tower: schoolbook in `base[X]/(X^k - nr)` -/
+/-- `F_p[X]/(X² - n)`: `(a₀ + a₁X)(b₀ + b₁X)` -/
+def mulQuadPrime (p n : Nat) : El → El → El
+  | [a0, a1], [b0, b1] => [(a0 * b0 + n * (a1 * b1)) % p, (a0 * b1 + a1 * b0) % p]
+  | _, _ => []
+
+/-- `F_p[X]/(X³ - n)` -/
+def mulCubicPrime (p n : Nat) : El → El → El
+  | [a0, a1, a2], [b0, b1, b2] =>
+    [(a0 * b0 + n * (a1 * b2 + a2 * b1)) % p,
+     (a0 * b1 + a1 * b0 + n * (a2 * b2)) % p,
+     (a0 * b2 + a1 * b1 + a2 * b0) % p]
+  | _, _ => []
+
+/-- multiplication in the tower: schoolbook in `base[X]/(X^k - nr)`; the two bottom layers
+    (`base = F_p`) are written out on `Nat` (same formulas, fewer kernel steps) -/
 def mul : Tw → El → El → El
   | prime p, a, b => [(a.headD 0 * b.headD 0) % p]
-  | ext k base nr, a, b =>
+  | ext k (prime p) nr, a, b =>
+    match k with
+    | 2 => mulQuadPrime p (nr.headD 0) a b
+    | 3 => mulCubicPrime p (nr.headD 0) a b
+    | _ => []
+  | ext k (ext k' b' nr') nr, a, b =>
+    let base := ext k' b' nr'
     let d := base.deg
     let p := base.char
     match k with
@@ -141,6 +161,8 @@ def zero (t : Tw) : El := vzero t.deg
 def one (t : Tw) : El := vone t.deg
 def const (t : Tw) (c : Nat) : El := vconst t.char t.deg c
 def sq (t : Tw) (a : El) : El := t.mul a a
+def dbl (t : Tw) (a : El) : El := vadd t.char a a
+def triple (t : Tw) (a : El) : El := vadd t.char (vadd t.char a a) a
 
 def powAux (t : Tw) : Nat → El → Nat → El → El
   | 0, _, _, acc => acc
@@ -390,15 +412,28 @@ def checkExtShape (c : ExtCfg) : Bool :=
   && c.frobC2.length == (if c.k == 3 then c.tower.deg else 0)
   && allB (wf c.frobTower) c.frobC1 && allB (wf c.frobTower) c.frobC2
 
-/-- `NONRESIDUE` is not a `k`-th power in the base field (so `X^k - NONRESIDUE` is irreducible) -/
-def checkNonresidue (c : ExtCfg) : Bool := c.baseTower.notKthPower c.k c.nonresidue
+/-- the generator `X` of `base[X]/(X^k' - nr')` as a coordinate vector -/
+def genOf (b : Tw) (t : Tw) : El := vzero b.deg ++ vone b.deg ++ vzero (t.deg - 2 * b.deg)
+
+/-- `NONRESIDUE` is not a `k`-th power in the base field (so `X^k - NONRESIDUE` is irreducible):
+    `k ∣ q-1` and `NONRESIDUE^((q-1)/k) ≠ 1`.  When `NONRESIDUE` is the generator `Y` of the layer
+    below (`Y^k' = nr'`), the power is evaluated as `nr'^((q-1)/(k·k'))` inside that layer's base
+    field (`k·k' ∣ q-1`), which is the same element. -/
+def checkNonresidue (c : ExtCfg) : Bool :=
+  match c.baseTower with
+  | .ext k' b nr' =>
+    if c.nonresidue == genOf b c.baseTower then
+      (c.baseTower.card - 1) % (c.k * k') == 0
+      && b.pow nr' ((c.baseTower.card - 1) / (c.k * k')) != b.one
+    else c.baseTower.notKthPower c.k c.nonresidue
+  | _ => c.baseTower.notKthPower c.k c.nonresidue
 
 /-- Fp4 / Fp6(2over3) / Fp12: `NONRESIDUE` is the generator `X` of the layer below — what the
     hard-coded coordinate rotation in `mul_base_field_by_nonresidue_in_place` assumes -/
 def checkNonresidueIsGenerator (c : ExtCfg) : Bool :=
   match c.kind, c.baseTower with
   | .fp4, .ext _ b _ | .fp6over3, .ext _ b _ | .fp12, .ext _ b _ =>
-    c.nonresidue == vzero b.deg ++ vone b.deg ++ vzero (c.baseTower.deg - 2 * b.deg)
+    c.nonresidue == genOf b c.baseTower
   | _, _ => true
 
 /-- the configuration's `mul_base_field_by_nonresidue_in_place` hook is multiplication by `NONRESIDUE`
@@ -468,11 +503,11 @@ def dbl (t : Tw) (a : El) (P : JPt) : JPt :=
   let yy := t.sq P.y
   let yyyy := t.sq yy
   let zz := t.sq P.z
-  let s := t.mul (t.const 2) (t.sub (t.sub (t.sq (t.add P.x yy)) xx) yyyy)
-  let m := t.add (t.mul (t.const 3) xx) (t.mul a (t.sq zz))
-  let x3 := t.sub (t.sq m) (t.mul (t.const 2) s)
+  let s := t.dbl (t.sub (t.sub (t.sq (t.add P.x yy)) xx) yyyy)
+  let m := t.add (t.triple xx) (t.mul a (t.sq zz))
+  let x3 := t.sub (t.sq m) (t.dbl s)
   ⟨x3,
-   t.sub (t.mul m (t.sub s x3)) (t.mul (t.const 8) yyyy),
+   t.sub (t.mul m (t.sub s x3)) (t.dbl (t.dbl (t.dbl yyyy))),
    t.sub (t.sub (t.sq (t.add P.y P.z)) yy) zz⟩
 
 /-- mixed addition `P + (x2, y2)` (madd-2007-bl) with the special cases handled -/
@@ -488,13 +523,13 @@ def addAff (t : Tw) (a : El) (P : JPt) (x2 y2 : El) : JPt :=
       if isZero rr then dbl t a P else inf t
     else
       let hh := t.sq h
-      let i := t.mul (t.const 4) hh
+      let i := t.dbl (t.dbl hh)
       let j := t.mul h i
-      let r2 := t.mul (t.const 2) rr
+      let r2 := t.dbl rr
       let v := t.mul P.x i
-      let x3 := t.sub (t.sub (t.sq r2) j) (t.mul (t.const 2) v)
+      let x3 := t.sub (t.sub (t.sq r2) j) (t.dbl v)
       ⟨x3,
-       t.sub (t.mul r2 (t.sub v x3)) (t.mul (t.const 2) (t.mul P.y j)),
+       t.sub (t.mul r2 (t.sub v x3)) (t.dbl (t.mul P.y j)),
        t.sub (t.sub (t.sq (t.add P.z h)) z1z1) hh⟩
 
 /-- `k·(x, y)` by MSB-first double-and-add; `fuel ≥ bit length of k` -/
